@@ -384,6 +384,56 @@ def run(F, R, tier):
         r5.require(not brk, (fn, "early-break"), "remove_method_and_scope leaves its search loop early: later relationship sets keep their references")
     r5.floor(20)   # inertness is guarded per function by the `table` requirement; the site count varies with how the arms are split into helpers
 
+    # ------------------------------------------------------------------ R8 what attach / remove act on, on their decision tables
+    r8 = R.rule("C04-R8", "T2+T3", "attach_method_relationship appends Refer(id of the method found among the general-purpose methods by this very query) and refuses "
+                "otherwise; remove_method sweeps the id out of all five relationship sets on every path, whether or not a method with that id exists")
+    fn = CD + "::attach_method_relationship"
+    if r8.anchor(F.hir(fn), fn):
+        tab = SR.Table(F, fn, opaque=r"CoreDocument::resolve_method$|OrderedSet::append$", rule=r8)
+        Q = SR.param(SY.param_name(F, fn, 1, "method_query"))
+        SCOPED = ("ctor", "Some", ("ctor", "VerificationMethod"))
+        n_app = 0
+        for q in tab.paths:
+            rms = q.calls(r"CoreDocument::resolve_method$")
+            scoped = [e for e in rms if len(e.args) == 3 and SY.term(e.args[2]) == SCOPED and SR.pure(e.args[1], Q, conv=re.compile(r"(clone|into|from|as_ref|borrow)$"))]
+            unscoped = [e for e in rms if len(e.args) == 3 and SY.term(e.args[2]) == ("ctor", "None")]
+            apps = q.calls(r"OrderedSet::append$")
+            ok = SR.is_success(q.ret) and not SR.is_failure(q.ret)
+            if apps:
+                n_app += 1
+                good = len(apps) == 1 and len(scoped) >= 1 and q.variant.get(scoped[0].result.t) == "Some"
+                if good:
+                    want = ("ctor", "Refer", ("field", ("payload", scoped[0].result.t, "Some", 0), "id"))
+                    a1 = SY.term(apps[0].args[1])
+                    good = a1 == want or (a1[:2] == ("ctor", "Refer") and SR.pure(a1[2], want[2], conv=re.compile(r"(clone|to_owned|as_ref|borrow|VerificationMethod::id)$")))
+                r8.require(good, (fn, "attached-method"), "attach_method_relationship appends something other than Refer(id of the general-purpose method this query resolves to — "
+                           "resolve_method(query, Some(VerificationMethod)) ✓): with two methods sharing a fragment a fragment-only query can alias an embedded method — path: %s" % q.describe()[:160])
+                r8.require(ok, (fn, "attached-method", "outcome"), "attach_method_relationship appends and then fails")
+            else:
+                r8.require(not ok, (fn, "ok-without-append"), "attach_method_relationship succeeds without attaching anything")
+                r8.require(bool(scoped) and all(q.variant.get(e.result.t) == "None" for e in scoped), (fn, "refusal"), "attach_method_relationship refuses although the query resolves to a general-purpose method (or without asking)")
+        r8.site("attach_method_relationship: %d appending path(s), each Refer(id of resolve_method(query, Some(VerificationMethod)) ✓)" % n_app)
+        r8.require(n_app == 5 or not tab.paths, (fn, "rows"), "attach_method_relationship: expected one appending row per relationship, found %d" % n_app)
+    fn = CD + "::remove_method_and_scope"
+    if r8.anchor(F.hir(fn), fn):
+        tab = SR.Table(F, fn, opaque=r"OrderedSet::(remove|retain|query|contains)$|Queryable.*::query$|CoreDocument::resolve_method$", rule=r8, max_paths=6000)
+        DU_ = SR.param(SY.param_name(F, fn, 1, "did_url"))
+        bad = 0
+        for q in tab.paths:
+            swept = set()
+            for e in q.calls(r"OrderedSet::(remove|retain)$"):
+                t0 = SY.term(e.args[0])
+                for f_ in REL_FIELDS:
+                    if t0 == ("field", ("field", SR.SELF, "data"), f_) and (len(e.args) < 2 or SR.pure(e.args[1], DU_, conv=re.compile(r"(as_ref|borrow|clone|into|from)$")) or isinstance(e.args[1], SY.Clo)):
+                        swept.add(f_)
+            if swept != set(REL_FIELDS):
+                bad += 1
+                if bad <= 2:
+                    r8.fail((fn, "sweeps-all-paths"), "remove_method_and_scope has a path that does not remove the id from %s (a reference to a method the document does not contain would survive, "
+                            "and a later insert_method with that id is refused) — path: %s" % (sorted(set(REL_FIELDS) - swept), q.describe()[:160]))
+        r8.site("remove_method_and_scope: all five relationship sets swept on each of %d path(s): %s" % (len(tab.paths), bad == 0))
+    r8.floor(2)
+
     # ------------------------------------------------------------------ R6 serde round-trip wiring
     r6 = R.rule("C04-R6", "T12", "what serialisation omits deserialisation restores: skip_serializing_if fields are Option or defaulted; MethodRef is untagged with Embed before Refer")
     for ty in (CDD, "identity_verification::verification_method::method::VerificationMethod", "identity_verification::verification_method::method::_VerificationMethod", "identity_document::service::service::Service"):
